@@ -137,6 +137,16 @@ def c16_cases(run, rng):
              ("edges3", AM([6] * 3, [(0, 1), (1, 2), (0, 2)])), ("edges3", AM([6] * 4, [(0, 1), (1, 2), (2, 3)]))]
     for fam, am in small:
         yield fam, _decorate(impl.graph_of(am), len(am.zs))
+    # several components, every one a complete graph (mixtures of diatomics, P4 + HCl ...): >= 2 bonds and not complete,
+    # so the returned edge set must differ; a shuffle that keeps the edge set has probability 1/3 .. 1/15 here -> many seeds
+    K = gens.complete
+    for parts in ([2, 2], [2, 2, 1], [2, 2, 2], [3, 2], [4, 2], [3, 3], [2, 1, 2, 1]):
+        zs, edges = [], []
+        for k in parts:
+            off = len(zs)
+            zs += [11] if k == 1 else [17, 1] if k == 2 else [15] * k
+            edges += [(u + off, v + off) for u, v in K(k)[1]]
+        yield "complete-components", _decorate(impl.graph_of(AM(zs, edges)), len(zs))
     for k in ([2, 3, 4, 5, 8, 30] if quick else [2, 3, 4, 5, 6, 7, 8, 12, 30, 100]):
         n, e = gens.star(k)
         yield "star", _decorate(impl.graph_of(AM([6] + [1] * k, e)), k)
@@ -293,6 +303,8 @@ def c16(run, model):
         idx += 1
         special = fam not in ("random", "skeleton", "organic", "multi", "elements", "deep", "tree") or idx % 5 == 0
         seeds = [rng.random() for _ in range(nseeds)] + ([0.0, 0.999999] if special else [])
+        if fam == "complete-components":
+            seeds += [rng.random() for _ in range(14 if quick else 40)] + [k / 64 for k in range(1, 8)]
         run.count("c16:family:" + fam)
         n = g.number_of_nodes()
         run.count("c16:atoms:%s" % ("1" if n == 1 else "2" if n == 2 else "3-6" if n <= 6 else "7-20" if n <= 20 else ">20"))
